@@ -13,8 +13,11 @@ CONTRACT_TEXT = 'cosmos2contract'
 class Decider:
     """fresh solver per obligation on the exact encoding; counts and times every query"""
 
-    def __init__(self, timeout_ms=20000, dump_dir=None, seed=0):
+    def __init__(self, timeout_ms=20000, dump_dir=None, seed=0, cross_check=0):
         self.timeout_ms, self.dump_dir, self.seed = timeout_ms, dump_dir, seed
+        self.cross_check = cross_check          # number of queries per worker re-decided by cvc5 on the SMT-LIB2 text
+        self.cross = {'agree': 0, 'cvc5_unknown': 0, 'disagree': 0, 'error': 0}
+        self.cross_disagreements = []
         self.n = 0
         self.t = 0.0
         self.stats = {'unsat': 0, 'sat': 0, 'unknown': 0}
@@ -69,12 +72,41 @@ class Decider:
                 f.write('; expected: %s\n(set-logic ALL)\n' % res)
                 f.write(s.to_smt2())
             self.dumped += 1
+        if self.cross_check > 0 and res in ('sat', 'unsat') and name not in ('witness', 'witness-raw'):
+            self.cross_check -= 1
+            self._cvc5(s, res, name)
         out = (res, s.model() if r == z3.sat else None)
         if res == 'unsat':
             self.cache[key] = (res, None)
             self._keep = getattr(self, '_keep', [])
             self._keep.append(constraints)       # keep ASTs alive: ids are recycled
         return out
+
+    def _cvc5(self, solver, z3_res, name):
+        import tempfile
+        text = '(set-logic ALL)\n' + solver.to_smt2()
+        with tempfile.NamedTemporaryFile('w', suffix='.smt2', delete=False, dir='/tmp') as f:
+            f.write(text)
+            fn = f.name
+        try:
+            p = subprocess.run(['cvc5', '--lang', 'smt2', '--tlimit=%d' % min(self.timeout_ms, 30000), fn], capture_output=True, text=True, timeout=self.timeout_ms / 1000 + 30)
+            out = (p.stdout + p.stderr).strip()
+            if '(error' in out:
+                self.cross['error'] += 1
+                self.cross_disagreements.append({'query': name, 'z3': z3_res, 'cvc5': out[:200]})
+            elif out.startswith('sat') or out.startswith('unsat'):
+                verdict = out.split()[0]
+                if verdict == z3_res:
+                    self.cross['agree'] += 1
+                else:
+                    self.cross['disagree'] += 1
+                    self.cross_disagreements.append({'query': name, 'z3': z3_res, 'cvc5': verdict})
+            else:
+                self.cross['cvc5_unknown'] += 1
+        except Exception as e:
+            self.cross['cvc5_unknown'] += 1
+        finally:
+            os.unlink(fn)
 
     def prove(self, pc, goal, name=''):
         """is pc => goal valid?  -> ('unsat' = holds | 'sat' = counterexample | 'unknown', model)"""
